@@ -834,10 +834,11 @@ func checkNoPageRetained(c *Ctx, rule string) {
 	tabled := map[string]bool{}
 	eachInstr(worker, func(in ssa.Instruction) {
 		cc := callOf(in)
-		if cc == nil || calleeName(cc) != "nextRequest" {
+		reqArg := p.publishesRequest(cc)
+		if reqArg == nil {
 			return
 		}
-		for _, l := range leavesOf(cc.Args[len(cc.Args)-1]) {
+		for _, l := range leavesOf(reqArg) {
 			if l.Kind == leafCallResult && calleeName(l.Call) == "requestFromPacket" {
 				for _, a := range l.Call.Args {
 					v := a
